@@ -11,7 +11,8 @@ align_to(0) probes and through every later implicit placement.
 import random
 
 from vmon import env  # noqa: F401
-from vmon.simkit import Mon
+from vmon.suitemon import suite_case
+from vmon.simkit import spell_int, spell_bool, Mon
 from vmon.models.memmap import (MapModel, REFUSE, ACCEPT, MAY, live_resources, live_windows, live_all,
                                 check_invariants)
 
@@ -43,6 +44,8 @@ def n_cases(tier):
 
 
 def gen_case(rng, tier, idx):
+    if idx == 0:
+        return {"suite": True}     # the repository\'s own test-suite under the monitors (vmon/suitemon.py)
     if idx % 8 == 7:
         # maps built indirectly: decoders, bridges, builders, peripherals (invariant walker installed on the class)
         return {"kind": "hier", "root": rng.choice(["wb", "wb", "csr"]), "max_space": rng.choice([8, 10, 12, 14])}
@@ -125,6 +128,8 @@ def run_hier(case, rng):
 
 
 def run_case(case):
+    if case.get("suite"):
+        return suite_case(Mon(), ['C02'], ['C02_walks', 'refusals_seen'])
     rng = random.Random(case["stim_seed"])
     if case.get("kind") == "hier":
         return run_hier(case, rng)
@@ -245,6 +250,8 @@ def run_case(case):
             why = f"{mm.label}.add_resource(size={size!r}, addr={addr!r}, alignment={al!r}, name={name!r})"
             mon.log(why)
             pred = mm.predict_add_resource(id(r), True, name, size, addr, al)
+            # the same numbers as a caller may spell them (bool for 0/1, IntEnum member, int subclass)
+            size, addr, al = spell_int(rng, size), spell_int(rng, addr), spell_int(rng, al)
             try:
                 out, raised = m.add_resource(r, name=name, size=size, addr=addr, alignment=al), None
             except Exception as e:
@@ -316,7 +323,7 @@ def run_case(case):
             mon.log(why)
             pred = mm.predict_add_window(id(child), True, cm, name, addr, sparse)
             try:
-                out, raised = m.add_window(child, name=name, addr=addr, sparse=sparse), None
+                out, raised = m.add_window(child, name=name, addr=spell_int(rng, addr), sparse=spell_bool(rng, sparse)), None
             except Exception as e:
                 out, raised = None, e
             if judge(t, pred, raised, out, before, why, name):
